@@ -53,10 +53,11 @@ Fixpoint t_add_all (t : trie) (ks : list bkey) (m : method) : outcome trie :=
   | [] => Ok t
   | k :: ks' => do r <- t_add t k m; t_add_all (fst r) ks' m
   end.
-(* a rule with additional bindings: they are visited only when the main pattern was new *)
+(* a rule with additional bindings: they are visited whether or not the main pattern was new (it used to
+   be: only when it was new -- finding R9) *)
 Definition t_add_rule (t : trie) (r : rule) (m : method) : outcome trie :=
   do x <- t_add t (rmain r) m;
-  if snd x then t_add_all (fst x) (radd r) m else Ok (fst x).
+  t_add_all (fst x) (radd r) m.
 Fixpoint t_add_rules (t : trie) (rs : list rule) (m : method) : outcome trie :=
   match rs with
   | [] => Ok t
@@ -89,7 +90,8 @@ Definition append_handler (s : state) (d : mdesc) (h : handler) : outcome state 
   | Ok x =>
       do t' <- t_add_rules (fst x) (mrules d) (mname d);
       Ok (State t' (sconns s) (aset (mname d) (hget s (mname d) ++ [h]) (shandlers s)))
-  | _ => Panic PExplicit                          (* panic("bug: ...") *)
+  | Err e => Err e                                (* (it used to be panic("bug: ..."): finding R10) *)
+  | other => Panic PExplicit
   end.
 
 (* processFile / the method loops of registerService: one fresh handler per method *)
